@@ -169,6 +169,26 @@ theorem c01_no_effect (env : Env) (s : App) (incs : List (Signer × Nat)) (tx : 
       | err e => simp
       | unknown => simp
 
+/-- **C01d, the governance route when the gov account is not the admin** (the admin was configured away from the gov
+    default: environment override or app config): the proposals x/gov executes — with the gov account as sender — that
+    carry a gated message anywhere (top level or inside authz execs) all fail, and x/gov's EndBlocker leaves the whole
+    application state as it was -/
+theorem c01_gov_no_effect (env : Env) (sg : Signer) (h : sg ≠ .admin) :
+    ∀ (gov : List (List Msg)) (s : App) (acc : List TxR), (∀ ms ∈ gov, hasGatedList ms = true) →
+      (runGov env sg gov s acc).2 = s
+  | [], _, _, _ => rfl
+  | ms :: rest, s, acc, hg => by
+    simp only [runGov]
+    cases hh : handleList env.lim s sg ms with
+    | ok s' => exact absurd hh (handleList_gated env.lim sg h ms s s' (hg ms (by simp)))
+    | err e => exact c01_gov_no_effect env sg h rest s _ (fun m hm => hg m (by simp [hm]))
+    | unknown => exact c01_gov_no_effect env sg h rest s _ (fun m hm => hg m (by simp [hm]))
+
+theorem govSigner_not_admin (b : Block) (h : b.govIsAdmin = false) : govSigner b ≠ .admin := by
+  unfold govSigner
+  rw [h]
+  simp
+
 /-- non-vacuity: in a two-validator state an ordinary user's SetPower hidden behind a harmless message and
     two execs is rejected and changes nothing, while the admin's goes through -/
 def demo : App :=
